@@ -675,6 +675,7 @@ pub mod fastq {
 //@end
 
 //@fn fastq::Reader::grow ret=r tags=C09,C06,C03
+//@local cap ord=0 kind=let
 //@spec
         requires
             old(self).wf0(),
@@ -745,6 +746,7 @@ pub mod fastq {
 //@end
 
 //@fn fastq::Reader::check_end ret=r tags=C02,C12,C17,C06
+//@local rest ord=0 kind=let
 //@spec
         requires
             old(self).buf_reader.wf(),
@@ -1235,6 +1237,7 @@ trait RecordD {
 //@end
 
 //@fn fastq::RefRecord::write_unchanged ret=r tags=C11
+//@local data ord=0 kind=let
 //@spec
         requires self.rwf(),
         ensures
@@ -1361,6 +1364,7 @@ trait RecordD {
     }
 
 //@fn fastq::Reader::read_record_set_exact ret=r tags=C04,C03,C05,C06,C09,C14
+//@local is_new ord=0 kind=letmut
 //@spec
         requires
             old(self).wf(), old(rset).wf(),
